@@ -56,10 +56,16 @@ def _shards(flavours: tuple[str, ...], cts: tuple[str, ...] = CONN_TYPES) -> lis
              "fault-injected:start_tls", "response-returned", "request-failed"),
     timeout={"quick": 240, "thorough": 900},
     symbolic="k: index of the faulted network operation; kind in {error, timeout, EOF/partial write}; drop: caller closes the response without reading",
-    bounds="one request (POST, 2-byte body) per run, every network operation of the run (k <= 40 covers all), 8 connection types, sync and async classes, max_connections=2",
+    bounds="one request (POST, 2-byte body) per run, every network operation of the run (k <= 40 covers all), 8 connection types, sync and async classes, max_connections=2 (1 in the C04 view)",
     outside="two simultaneous faults; faults during the capacity probe; bodies larger than one read",
     stubs=STUBS,
-    also=("C06",),
+    # C04 view: the same runs at max_connections=1 with the open-stream counter
+    # (a connection dropped from the pool must not keep its socket while the
+    # freed place is used to open another one)
+    per_prop={"C04": {"quick": [{"ct": ct, "flavour": fl, "N1": True}
+                                for ct, fl in (("h11", "sync"), ("h2", "async"), ("h2prior", "sync"), ("tunnel", "async"))],
+                      "thorough": [dict(sh, N1=True) for sh in _shards(("sync", "async"))]}},
+    also=("C04", "C06"),
 )
 def fault(k: int, kind: int, drop: bool) -> None:
     """
@@ -69,12 +75,17 @@ def fault(k: int, kind: int, drop: bool) -> None:
     """
     k, kind, drop = ladder(k, 0, 40), ladder(kind, 0, 2), bool(drop)
     with concrete(k, kind, drop):
+        from .conc import StreamCounter
+
+        N = 1 if shard("N1", False) else 2
         su = Setup(shard("ct", "h11"), shard("flavour", "sync") == "async",
-                   fault_k=k, fault_kind=kind, max_connections=2)
+                   fault_k=k, fault_kind=kind, max_connections=N)
+        counter = StreamCounter(su, N, f"fault:{su.ct}:N{N}")
         _exchange(su, drop)
         su.quiescent_slot_oracle()
         su.stream_oracle()
         su.probe_capacity(2)
+        counter.check()
         su.closed_pool_oracle()
 
 
